@@ -1,4 +1,5 @@
 import Blue.Driver.Util
+import Blue.Driver.C11
 import Blue.Driver.C14
 import Blue.Driver.C01
 open Blue.Driver
@@ -7,6 +8,7 @@ def dispatch (toks : List String) : String :=
   match toks with
   | "setsum" :: rest => Blue.Driver.C14.handle rest
   | "kvs" :: rest => Blue.Driver.C01.handle rest
+  | "cur" :: rest => Blue.Driver.C11.handle rest
   | _ => "bad-op"
 
 partial def loop (h : IO.FS.Stream) (out : IO.FS.Stream) : IO Unit := do
